@@ -78,6 +78,7 @@ def run(res, programs, tier):
             halftest.rule(res, P, P.name, "R10.5")
         if "dashu_float" in P.units:
             _r10_6(res, P, P.name)
+            _r10_7(res, P, P.name)
 
 
 def _dispatch_for(P, mode):
@@ -327,6 +328,40 @@ def _r10_6(res, P, cfgname):
                 res.fail("R10.6", cfgname, key, "with_precision passes the value on unrounded on a path that does not establish %s: a value with unlimited precision (0) keeps all its digits under the new, smaller precision" % (
                     "old precision <= new precision" if not ok_le else "that the old precision is limited (non-zero) or the value infinite"), mir.span_loc(node.get("sp", f["sp"])))
     res.floor("R10.6", cfgname, n, 2, "definitions of the value wrapped by with_precision")
+
+
+# ---------------------------------------------------------------------------------------------
+# R10.7  for |x| < 1 the helper split_at_point_internal returns the *precision of the context* in place of
+# the number of fractional digits (that is what fract() wants).  A rounding decision must not be taken from
+# that count: 99 * 10^-4 at precision 2 would be compared with 10^2 and rounded up to 1 (F31).  Every
+# function that feeds the helper's result to round_fract answers the |x| < 1 case itself first, i.e. its call
+# of the helper is dominated by the `smaller_than_one() == false` edge.
+def _r10_7(res, P, cfgname):
+    from . import guards
+    res.rule("R10.7", "a function that hands split_at_point_internal's digit count to round_fract reaches that helper only on the smaller_than_one() == false edge (for |x| < 1 the helper returns the context precision, not a digit count)")
+    n = 0
+    for f in P.fns("dashu_float"):
+        b = f.get("mir")
+        if not b:
+            continue
+        calls = [(bb, (fr.get("rp") or fr["p"]), t) for bb, t, fr in mir.iter_calls(b) if fr]
+        splits = [(bb, t) for bb, c, t in calls if c.endswith("::split_at_point_internal")]
+        if not splits or not any(c.endswith("::round_fract") for _b, c, _t in calls):
+            continue
+        S = sym.Sym(f)
+        cfg = mir.cfg_of(b)
+        for bb, t in splits:
+            n += 1
+            ok = False
+            for c in guards.constraints_at(S, cfg, bb):
+                if c[0] == "bool" and c[2] is False and isinstance(c[1], tuple) and c[1][0] == "call" and c[1][1].endswith("::smaller_than_one"):
+                    ok = True
+            key = f["p"] + " split_at_point_internal"
+            if ok:
+                res.ok("R10.7", cfgname, key, sample=dict(function=f["p"], guard="smaller_than_one() == false"))
+            else:
+                res.fail("R10.7", cfgname, key, "%s passes the digit count of split_at_point_internal to round_fract without first answering the |x| < 1 case: for such x the helper returns the context precision, and a value like 0.0099 at 2 digits is rounded to 1" % f["p"], span_loc(t["sp"]))
+    res.floor("R10.7", cfgname, n, 4, "callers that round with the digit count of split_at_point_internal")
 
 
 LEVEL = LEVEL + ' Also (R10.2b) every Inexact adjustment of the mode-generic rounding functions comes from a call on the mode R, (R10.4) the log2-estimate half test and all bound-returning functions are polarity-correct, (R10.5) half tests compare a remainder with its own divisor.'
